@@ -126,9 +126,11 @@ CLAIMED = {
              'the IRQ handler) on a small ARM and Thumb program with an SVC and checks interrupt transparency (everything User '
              'mode sees at the end equals the program\'s meaning), Props!SpecStepOK at every step and deadlock freedom; every '
              'complete schedule (quick: every 3rd of ~800) is replayed on the real code, each action judged by TLC.',
-        note='coprocessor gating is specified for generic coprocessors (CP0-9, 12, 13); CP10/11 (VFP / Advanced SIMD), CP14/CP15 '
-             'system accesses and HCPTR traps are envelope-only; ERET A1 and banked MRS/MSR are documented as not implemented by the emulator; HSR syndromes '
-             'are don\'t-care.',
+        note='coprocessor gating is specified for generic coprocessors (CP0-9, 12, 13) incl. the Virtualization Extensions (CPACR not '
+             'applied in Hyp mode; HCPTR.TCP<n> traps the access to Hyp mode, UNDEFINED from Hyp mode) and for CP15 accesses trapped by '
+             'HSTR.T<CRn>; WFI / WFE / SMC trapped by HCR.TWI / TWE / TSC are exact as well; CP10/11 (VFP / Advanced SIMD), the CP14/CP15 '
+             'register transfers themselves, HCR.TIDCP and HSTR.TTEE are envelope-only; ERET A1 and banked MRS/MSR are documented as not '
+             'implemented by the emulator; HSR syndromes are don\'t-care.',
         technique='TLC model checking of the PSR-write and return specs + TLC trace validation of API calls and instructions',
         ref='DESIGN.md §4 C12'),
 
